@@ -116,6 +116,21 @@ func c08Scenarios(tier string) []*Scenario {
 			sc.Name += "|" + rd
 		}
 	}
+	// calls made with a context that can never be cancelled (context.Background())
+	for _, tr := range []string{"inproc", "http"} {
+		for _, rpc := range []RPC{
+			{Kind: "unary", Client: []string{"I"}, Handler: []string{"dec", "ret:nil"}},
+			{Kind: "unary", Client: []string{"I"}, Handler: []string{"dec", "h:a", "t:b", "ret:nil"}},
+			{Kind: "unary", Client: []string{"I"}, Handler: []string{"dec", "ret:ok"}},
+			{Kind: "cs", Client: []string{"S0", "C", "R*", "R"}, Handler: []string{"r*", "ret:ok"}},
+			{Kind: "cs", Client: []string{"S0", "C", "R*", "R"}, Handler: []string{"r*", "s0", "s1", "ret:ok"}},
+		} {
+			add(tr, "", rpc)
+			sc := out[len(out)-1]
+			sc.Opts = "bgctx"
+			sc.Name += "|ctx=background"
+		}
+	}
 	// HTTP: single-request methods (server-streaming) given 0, 1, 2 request frames
 	for _, c := range [][]string{{"C", "R*"}, {"S0", "C", "R*"}, {"S0", "S1", "C", "R*"}, {"S0", "E1", "C", "R*"}, {"E0", "C", "R*"}, {"E0", "E1", "C", "R*"}} {
 		add("http", "", RPC{Kind: "ss", Client: c, Handler: []string{"r", "r", "s0", "ret:ok"}})
